@@ -62,9 +62,19 @@ def wsumFrom (pr : PA) (bals : List Nat) (i : Nat) : Nat → List Vote → Int
 /-- sum of the balances of the validators whose applied vote lies in the subtree of `i` -/
 def wsum (pr : PA) (votes : List Vote) (bals : List Nat) (i : Nat) : Int := wsumFrom pr bals i 0 votes
 
-/-- Weights invariant: the weight of every node is the sum of the balances of the validators whose applied
-vote lies in its subtree. -/
-def WeightsOK (fc : FC) : Prop :=
-  ∀ (i : Nat) (n : Node), fc.pa.nodes[i]? = some n → n.weight = wsum fc.pa fc.votes fc.balances i
+/-- the weight of every node is the sum of the balances `bals` of the validators whose applied vote (in `votes`)
+lies in its subtree -/
+def WeightsAre (pr : PA) (votes : List Vote) (bals : List Nat) : Prop :=
+  ∀ (i : Nat) (n : Node), pr.nodes[i]? = some n → n.weight = wsum pr votes bals i
+
+/-- every applied vote is Go's zero `NodeRef` ("never applied") or a node of the array -/
+def VotesIn (pr : PA) (votes : List Vote) : Prop :=
+  ∀ v ∈ votes, v.cur = NodeRef.zero ∨ (aGet pr.indices v.cur).isSome
+
+/-- Go's zero `NodeRef` (root 0 at slot 0), the vote store's "no vote" sentinel, is not a node -/
+def NoZero (pr : PA) : Prop := aGet pr.indices NodeRef.zero = none
+
+/-- Weights invariant of the wrapper: `WeightsAre` for its vote trackers and its current balances. -/
+def WeightsOK (fc : FC) : Prop := WeightsAre fc.pa fc.votes fc.balances
 
 end Zrnt.ForkChoice
